@@ -11,10 +11,11 @@ VIS = {"json": (JSON, "JSONValidator"), "cbor": (CBOR, "CBORValidator")}
 
 EPS = 2.220446049250313e-16
 
-INLINE_FREE = {"json_integer"}
+INLINE_FREE = {"json_integer", "occurrence_allows_absence"}
 
 CONFIGS = {
     "default": lambda f: f not in ("lsp", "_build-parser"),
+    "no-ast-span": lambda f: f not in ("ast-span", "lsp", "_build-parser"),
     "no-additional-controls": lambda f: f not in ("additional-controls", "lsp", "_build-parser"),
 }
 
@@ -105,6 +106,10 @@ class Run:
         if not hasattr(self, "_free_cache"):
             file = VIS[self.which][0]
             self._free_cache = {fi.name: fi for fi in self.facts.fns(file) if fi.impl_self is None and not fi.in_test}
+            # small shared helpers of validator/mod.rs that are interpreted rather than scripted
+            for fi in self.facts.fns("src/validator/mod.rs"):
+                if fi.impl_self is None and not fi.in_test and fi.name in INLINE_FREE:
+                    self._free_cache.setdefault(fi.name, fi)
         return self._free_cache
 
     def run(self, fnode):
@@ -603,3 +608,43 @@ class ObjRun:
             if name.startswith("Self::") and base in self.inline:
                 return self.call(base, self_obj, args)
         return NotImplemented
+
+
+# --------------------------------------------------------------------------
+# a literal member key that is absent from the map
+# --------------------------------------------------------------------------
+
+ABSENT_OCCS = [None, ("Optional", None, None), ("ZeroOrMore", None, None), ("OneOrMore", None, None), ("Exact", 0, 1), ("Exact", None, 1),
+               ("Exact", 0, None), ("Exact", None, None), ("Exact", 1, None), ("Exact", 1, 2)]
+
+
+def oracle_allows_absence(occ):
+    if occ is None:
+        return False
+    mn, _ = oracle_minmax(occ)
+    return mn == 0
+
+
+def absent_key_table(facts, which, cfgname="default"):
+    """rows for: the member's literal key is not in the map; verdict 'skipped' (no error, advance to the next entry) or 'missing' (error)"""
+    rows = []
+    fi = visitor_fn(facts, which, "validate_object_value" if which == "json" else "visit_value")
+    for occ in ABSENT_OCCS:
+        doc = ("enum", "Value::Object", [absint.PyMap()]) if which == "json" else ("enum", "Value::Map", [absint.MutList()])
+        obj = self_obj(which, doc)
+        st = obj[2]["state"][2]
+        st.update({"occurrence": occ_val(occ) if occ else ("None",), "is_member_key": True, "is_cut_present": False, "advance_to_next_entry": False,
+                   "data_location": ("str", "")})
+        obj[2].update({"validated_keys": ("None",), "object_value": ("None",), "cut_value": ("None",), "claimed_map_entries": absint.MutList()})
+        scripts = {"find_single_map_entry_matching": lambda run, node, recv: ("None",),
+                   "token_value_into_cbor_value": lambda run, node, args: ("str", "KEY")}
+        r = Run(facts, which, cfgname, {}, {"self": obj, "value": ("enum", "token::Value::TEXT", [("str", "k")])}, scripts=scripts)
+        name = occ_name(occ) if occ else "none"
+        try:
+            r.run(fi.node)
+            nerr = r.errors + len(obj[2]["errors"])
+            verdict = "missing" if nerr else ("skipped" if st["advance_to_next_entry"] is True else "accepted-without-skip")
+        except Unknown as u:
+            verdict = "unknown: %s" % u
+        rows.append({"occ": name, "verdict": verdict, "expected": "skipped" if oracle_allows_absence(occ) else "missing", "file": fi.file, "line": fi.line})
+    return rows
